@@ -23,6 +23,7 @@ int main(int argc, char** argv) {
   add_module_ops(L.ops, {4, 16, 1024});
   add_table_ops(L.ops);
   add_ctor_ops(L.ops);
+  add_kernel_ops(L.ops);
   lsm_arena_page_align();   // nothing is ever write-protected in this check: it judges results, not writes (that is C12)
   Ctx ctx(args);
   const bool th = args.thorough();
